@@ -34,7 +34,7 @@ TraceNext == \/ /\ l <= Len(Traces[tid])
                      IF e.t = "peer" THEN PeerReply(e.r)
                      ELSE /\ e.t \in Threads
                           /\ ThreadAct(e)
-                          /\ (e.op \in {"trylock", "release", "recv"}) => recvlock' = e.recvlock
+                          /\ (e.op \in {"trylock", "release", "recv"} /\ e.recvlock # "?") => recvlock' = e.recvlock
                 /\ l' = l + 1
                 /\ UNCHANGED tid
              \/ /\ \E t \in Threads : PopCb(t)
